@@ -21,7 +21,7 @@
 #define MAXC 400
 #define LABLEN 28
 #define OBS_MAX (96 * 1024)
-#define MAXFAIL 48
+#define MAXFAIL 512             /* per execution / per enumeration batch; overflow is reported as VX-FAIL-OVERFLOW (was 48, silent) */
 #define NCOUNT 16
 #define MAXJOBS 64
 
@@ -49,6 +49,7 @@ typedef struct {
   volatile int64_t tick_ms;     /* time the current element started */
   int diverged;
   int sample_n;                 /* enumeration: obs offsets of first elements */
+  volatile int enum_restart;    /* enumeration: child asks for the rest of its batch to be run in a fresh child */
 } vx_slot;
 
 static int g_argc;
@@ -116,7 +117,17 @@ void vx_fail (const char *key, const char *fmt, ...) {
   /* one record per key per execution/element */
   for (int i = 0; i < cur->nfail; i++)
     if (!strcmp (cur->fail[i].key, key) && cur->fail[i].index == cur->enum_cur) return;
-  if (cur->nfail >= MAXFAIL) { cur->fail_overflow++; return; }
+  if (cur->nfail >= MAXFAIL - 1) {
+    /* never lose a failure silently: the last record says that records were dropped */
+    if (cur->nfail == MAXFAIL - 1) {
+      vx_failrec *o = &cur->fail[cur->nfail++];
+      snprintf (o->key, sizeof o->key, "VX-FAIL-OVERFLOW");
+      snprintf (o->msg, sizeof o->msg, "more than %d failure records in one execution/batch; later ones dropped (first dropped key: %.200s)", MAXFAIL - 1, key);
+      o->index = cur->enum_cur;
+    }
+    cur->fail_overflow++;
+    return;
+  }
   vx_failrec *f = &cur->fail[cur->nfail];
   snprintf (f->key, sizeof f->key, "%s", key);
   va_start (ap, fmt);
@@ -310,6 +321,10 @@ static void scan_fd (int fd) {
 void vx_scan_now (void) { if (cur && cur_fd >= 0) scan_fd (cur_fd); }
 void vx_detach (void) { cur = 0; cur_fd = -1; }
 
+/* enumeration mode: finish the current element normally, then end this child; the parent runs the remaining
+ * elements of the batch in a fresh child (for elements that leave the process in a state that would taint the next ones) */
+void vx_enum_restart (void) { if (cur) cur->enum_restart = 1; }
+
 void vx_child_exit (int code) {
   if (cur) {
     vx_scan_now ();
@@ -412,7 +427,7 @@ static void child_setup (int j) {
   memset (cur, 0, offsetof (vx_slot, obs));
   cur->obs_len = 0; cur->obs[0] = 0; cur->nfail = cur->fail_overflow = 0;
   memset (cur->counter, 0, sizeof cur->counter);
-  cur->enum_cur = -1; cur->enum_ndone = 0; cur->diverged = 0;
+  cur->enum_cur = -1; cur->enum_ndone = 0; cur->diverged = 0; cur->enum_restart = 0;
   (void) !ftruncate (cur_fd, 0);
   lseek (cur_fd, 0, SEEK_SET);
   scanned = 0;
@@ -452,6 +467,7 @@ static pid_t launch_enum (int j, long from, long to, long rotate) {
       enum_fn (idx);
       vx_scan_now ();
       cur->enum_ndone++;
+      if (cur->enum_restart) break;
     }
     cur->enum_cur = -1;
     vx_child_exit (0);
@@ -681,7 +697,14 @@ static int enumerate (FILE *out) {
       samples = 0;
       fputs ("{\"type\":\"sample\",\"obs\":", out); jstr (out, s->obs); fputs ("}\n", out);
     }
-    if (s->done && WIFEXITED (status) && WEXITSTATUS (status) == 0) { write_enum_fails (out, s, slot_fd[j]); continue; }
+    if (s->done && WIFEXITED (status) && WEXITSTATUS (status) == 0) {
+      write_enum_fails (out, s, slot_fd[j]);
+      if (s->enum_restart && jobs[j].e_from + s->enum_ndone < jobs[j].e_to) {   /* vx_enum_restart(): rest of the batch in a fresh child */
+        pend = realloc (pend, (npend + 1) * sizeof *pend);
+        pend[npend].a = jobs[j].e_from + s->enum_ndone; pend[npend].b = jobs[j].e_to; pend[npend].alone = 0; npend++;
+      }
+      continue;
+    }
     /* died in the middle of element enum_cur */
     long curidx = s->enum_cur;          /* rotated index */
     long pos = jobs[j].e_from + s->enum_ndone;   /* position in [from,to) */
